@@ -175,6 +175,9 @@ struct Model {
     /// program loads since the artefact was compiled
     jit_stale: bool,
     cl_stale: bool,
+    /// the very slice the code was compiled from was loaded again: the code may be kept or dropped
+    jit_same: bool,
+    cl_same: bool,
     offs: (usize, usize),
 }
 
@@ -368,7 +371,7 @@ pub fn run(a: &Args, rep: &mut Report) {
                 continue;
             }
         };
-        let mut m = Model { exists: false, prog: None, ver: Ver::Default, helper: None, calc: false, jit: None, cl: None, jit_stale: false, cl_stale: false, offs: (0, 8) };
+        let mut m = Model { exists: false, prog: None, ver: Ver::Default, helper: None, calc: false, jit: None, cl: None, jit_stale: false, cl_stale: false, jit_same: false, cl_same: false, offs: (0, 8) };
         let mut pos = 0usize;
         let mut last_exec: Option<(u64, usize)> = None; // (value, model epoch) for history independence
         let mut epoch = 0usize;
@@ -419,7 +422,7 @@ pub fn run(a: &Args, rep: &mut Report) {
                     let ok = p.map(|i| pool[i].default_ok).unwrap_or(true);
                     match (&obs, ok) {
                         (Obs::Ok, true) => {
-                            m = Model { exists: true, prog: *p, ver: Ver::Default, helper: None, calc: false, jit: None, cl: None, jit_stale: false, cl_stale: false, offs: p.map(|i| pool[i].probe.unwrap_or((0, 8))).unwrap_or((0, 8)) };
+                            m = Model { exists: true, prog: *p, ver: Ver::Default, helper: None, calc: false, jit: None, cl: None, jit_stale: false, cl_stale: false, jit_same: false, cl_same: false, offs: p.map(|i| pool[i].probe.unwrap_or((0, 8))).unwrap_or((0, 8)) };
                             epoch += 1;
                         }
                         (Obs::Err, false) => { /* the previous VM object (if any) stays in use */ }
@@ -435,8 +438,13 @@ pub fn run(a: &Args, rep: &mut Report) {
                         (Obs::Ok, true) => {
                             m.prog = Some(*p);
                             m.offs = pool[*p].probe.unwrap_or((0, 8));
-                            m.jit_stale = m.jit.is_some();
-                            m.cl_stale = m.cl.is_some();
+                            // loading another slice: nothing has been compiled for it. Loading the
+                            // identical slice again (same address, same length, bytes cannot have
+                            // changed under a shared borrow): keeping the code is as good as dropping it.
+                            m.jit_same = m.jit.is_some_and(|(cp, _, _)| cp == *p) && !m.jit_stale;
+                            m.cl_same = m.cl.is_some_and(|(cp, _, _)| cp == *p) && !m.cl_stale;
+                            m.jit_stale = m.jit.is_some() && !m.jit_same;
+                            m.cl_stale = m.cl.is_some() && !m.cl_same;
                             epoch += 1;
                         }
                         (Obs::Err, false) => {}
@@ -482,9 +490,11 @@ pub fn run(a: &Args, rep: &mut Report) {
                             if matches!(op, Op::JitCompile) {
                                 m.jit = Some((m.prog.unwrap(), m.helper, m.calc));
                                 m.jit_stale = false;
+                                m.jit_same = false;
                             } else {
                                 m.cl = Some((m.prog.unwrap(), m.helper, m.calc));
                                 m.cl_stale = false;
+                                m.cl_same = false;
                             }
                         }
                         (Obs::Err, false) => {}
@@ -519,7 +529,7 @@ pub fn run(a: &Args, rep: &mut Report) {
                     }
                 }
                 Op::ExecJit | Op::ExecCl => {
-                    let (art, stale) = if matches!(op, Op::ExecJit) { (m.jit, m.jit_stale) } else { (m.cl, m.cl_stale) };
+                    let (art, stale, same) = if matches!(op, Op::ExecJit) { (m.jit, m.jit_stale, m.jit_same) } else { (m.cl, m.cl_stale, m.cl_same) };
                     match art {
                         None => {
                             if obs != Obs::Err {
@@ -540,7 +550,7 @@ pub fn run(a: &Args, rep: &mut Report) {
                                 }
                             }
                             match &obs {
-                                Obs::Err if stale => {}
+                                Obs::Err if stale || same => {}
                                 // code compiled before the last successful load belongs to another
                                 // program: the newly loaded one was never compiled => error required
                                 Obs::Val(v) if stale => {
